@@ -49,6 +49,59 @@ def grid_meta(g) -> Tuple:
     )
 
 
+BEHAVIOUR = True
+BEHAVIOUR_KEY = "<behaviour>call"
+_PTS: Dict[int, Tensor] = {}
+
+
+def behaviour_entry(obj, fp: Dict[str, Entry]) -> Entry:
+    """What a pool transform *does*: a deep copy of it (so that nothing of the object itself is touched, not even its
+    buffers) maps a fixed point set. 'Subsequent behaviour' of the receiver of an accessor is part of what the accessor
+    must leave alone, whatever private state an implementation keeps it in. The entry lives in everything the object
+    consists of, so a legitimate in-place change of something it shares explains a change here as well."""
+    import copy as _copy
+
+    res = set()
+    for e in fp.values():
+        if e[2]:
+            res |= e[2]
+    try:
+        D = int(obj.grid().ndim)
+        pts = _PTS.get(D)
+        if pts is None:
+            g = torch.Generator().manual_seed(1234 + D)
+            pts = _PTS[D] = torch.rand((1, 6, D), generator=g) * 1.8 - 0.9
+        # buffers that carry autograd history (left by an evaluation with gradients) cannot be deep-copied by torch; the
+        # call recomputes them anyway, so the copy gets detached clones
+        memo = {}
+        for m_ in obj.modules():
+            for b_ in m_._buffers.values():
+                if b_ is not None and b_.grad_fn is not None:
+                    memo[id(b_)] = _raw(b_).clone()
+        with torch.no_grad():
+            c_ = _copy.deepcopy(obj, memo)
+            c_.update()  # (a transform whose update hook was removed answers from its buffers: what it does *after an update*
+            y = c_(pts.clone())  # is what does not depend on the caches a read-only method may refresh)
+        y = _raw(y).float().contiguous()
+        return (("behaviour", tuple(y.shape)), y.numpy().tobytes(), frozenset(res))
+    except BaseException as e:  # noqa: BLE001
+        if type(e).__name__ == "InjectedInterrupt" or isinstance(e, (KeyboardInterrupt, SystemExit)):
+            raise
+        return (("behaviour-raises", type(e).__name__), None, frozenset(res))
+
+
+def _behaviour_differs(b: Entry, a: Entry) -> bool:
+    import numpy as np
+
+    if b[1] is None or a[1] is None:
+        return False  # the copy could not be taken or evaluated (no parameters, ...): nothing to compare
+    if b[0] != a[0]:
+        return True
+    x = np.frombuffer(b[1], dtype=np.float32)
+    y = np.frombuffer(a[1], dtype=np.float32)
+    return not np.allclose(x, y, rtol=1e-4, atol=1e-4, equal_nan=True)
+
+
 def fingerprint(obj, out: Optional[Dict[str, Entry]] = None, path: str = "", seen: Optional[Set[int]] = None) -> Dict[str, Entry]:
     from deepali.core.cube import Cube
     from deepali.core.grid import Grid
@@ -104,6 +157,8 @@ def fingerprint(obj, out: Optional[Dict[str, Entry]] = None, path: str = "", see
         # the hook container is shared between shallow copies by design (documented in SpatialTransform.__copy__)
         out[path + "<hooks>"] = (("hooks",), str(len(obj._forward_pre_hooks)), frozenset([("H", id(obj._forward_pre_hooks))]))
         out[path + "<hook-handle>"] = ((getattr(obj, "_update_hook_handle", None) is None,), None, None)
+        if not path and BEHAVIOUR and hasattr(obj, "grid") and hasattr(obj, "condition") and hasattr(obj, "update"):
+            out[BEHAVIOUR_KEY] = behaviour_entry(obj, out)
         return out
     if isinstance(obj, Tensor):
         m, h, ptr = tensor_entry(obj)
@@ -223,6 +278,10 @@ def diff(before: Dict[str, Entry], after: Dict[str, Entry], free_resources: Opti
             continue
         if b is None or a is None:
             return {"path": k, "what": "appeared" if b is None else "disappeared"}
+        if k == BEHAVIOUR_KEY:
+            if _behaviour_differs(b, a):
+                return {"path": k, "what": "behaviour", "before": repr(b[0]), "after": repr(a[0])}
+            continue
         if b[0] != a[0]:
             return {"path": k, "what": "meta", "before": repr(b[0])[:200], "after": repr(a[0])[:200]}
         if b[1] != a[1]:
